@@ -132,6 +132,10 @@ pub fn for_each_expr(opts: &SpaceOpts, f: &(dyn Fn(&Expr) + Sync)) -> u64 {
         fam.sort();
         fam.dedup();
         fam.par_iter().for_each(|s| visit(s, "position"));
+        if opts.position > 0 {
+            let flags = gen::flag_family();
+            flags.par_iter().for_each(|s| visit(s, "flags"));
+        }
     }
     if opts.corpus {
         let c = corpus();
